@@ -82,10 +82,10 @@ class Opq:
 
 
 class Closure:
-    __slots__ = ("node", "fid", "scope", "name", "defaults")
+    __slots__ = ("node", "fid", "scope", "name", "defaults", "tag")
 
-    def __init__(self, node, fid, scope, name, defaults=None):
-        self.node, self.fid, self.scope, self.name, self.defaults = node, fid, scope, name, defaults
+    def __init__(self, node, fid, scope, name, defaults=None, tag=""):
+        self.node, self.fid, self.scope, self.name, self.defaults, self.tag = node, fid, scope, name, defaults, tag
 
     def __repr__(self):
         return f"<closure {self.name}>"
@@ -163,6 +163,15 @@ class BoundMethod:
         self.obj, self.name = obj, name
 
 
+class SuperRef:
+    """`super()` evaluated inside a method of class `cls` on the object `obj`: attributes are looked up behind `cls` in the MRO of the
+    object's class"""
+    __slots__ = ("obj", "cls")
+
+    def __init__(self, obj, cls):
+        self.obj, self.cls = obj, cls
+
+
 def _mono_key(m):
     return (len(m), m)
 
@@ -197,7 +206,7 @@ def key(v) -> str:
         dflt = ""
         if v.defaults is not None:
             dflt = "[" + ", ".join(key(x) for x in list(v.defaults[0]) + [y for y in v.defaults[1] if y is not None]) + "]"
-        return f"<closure {v.name}@{getattr(v.node, 'lineno', 0)}{dflt}>"
+        return f"<closure {v.name}@{getattr(v.node, 'lineno', 0)}{v.tag}{dflt}>"
     if isinstance(v, FuncRef):
         return v.scope.shortname
     if isinstance(v, Ext):
@@ -214,6 +223,8 @@ def key(v) -> str:
         return "{" + ", ".join(f"{k!r}: {key(x)}" for k, x in sorted(v.items.items(), key=lambda kv: repr(kv[0]))) + (f"; **{key(v.base)}" if v.base is not None else "") + "}"
     if isinstance(v, ClassRef):
         return "class " + v.scope.shortname
+    if isinstance(v, SuperRef):
+        return f"super({v.cls.shortname}, {key(v.obj)})"
     if isinstance(v, Partial):
         return "partial(" + ", ".join([key(v.f)] + [key(a) for a in v.args] + [f"{n}={key(x)}" for n, x in v.kwargs]) + ")"
     return repr(v)
@@ -778,6 +789,11 @@ class SymX:
         self.loops = {}       # header node idx -> LoopInfo
         self.notes = []
         self.opaque_calls = {}   # qualname -> reason (functions met and not inlined)
+        self.unique_frames = False   # True: closures created in different frames (other path, other call) are different values (see run_inline)
+        self._gfid = 1 << 20
+
+    def _closure_tag(self, fid):
+        return f"#{fid}" if self.unique_frames and fid else ""
 
     def _mro(self):
         try:
@@ -803,7 +819,7 @@ class SymX:
             return self.atomnum(v)
         if isinstance(v, Cmp):
             return self.atomnum(self.opq("op", key(v), ("cmp", v)))
-        if isinstance(v, (Closure, FuncRef, Ext, Rec, BoundMethod, NTType, Partial, DictV, ClassRef)):
+        if isinstance(v, (Closure, FuncRef, Ext, Rec, BoundMethod, NTType, Partial, DictV, ClassRef, SuperRef)):
             return self.atomnum(self.opq("sym", key(v), (v,)))
         if v is None:
             return self.atomnum(self.sym("None"))
@@ -1270,7 +1286,7 @@ class SymX:
         return self.opq("op", "fstr:" + "".join(parts), ("fstr",))
 
     def e_Lambda(self, e, st, fid, dec, module):
-        return Closure(e, fid, self.repo.scope_of(e), "lambda", self.eval_defaults(e.args, st, fid, dec, module))
+        return Closure(e, fid, self.repo.scope_of(e), "lambda", self.eval_defaults(e.args, st, fid, dec, module), self._closure_tag(fid))
 
     def eval_defaults(self, fnargs, st, fid, dec, module):
         """default values are evaluated when the function object is created"""
@@ -1447,9 +1463,75 @@ class SymX:
                 return hits[-1]
         return None
 
+    def _owner_class(self, fn_node):
+        """class scope whose body defines the function `fn_node` (None for plain functions)"""
+        mp = getattr(self, "_method_cls", None)
+        if mp is None:
+            mp = {}
+
+            def walk(sc):
+                for ch in sc.children:
+                    if ch.kind == "function" and ch.cls is not None and ch.parent is ch.cls:
+                        mp[id(ch.node)] = ch.cls
+                    walk(ch)
+            for m in self.repo.modules.values():
+                walk(m.scope)
+            self._method_cls = mp
+        return mp.get(id(fn_node))
+
+    def _super_ref(self, st, fid):
+        """zero-argument super() in the frame `fid`: (first parameter of the method, class that defines the method)"""
+        fr = st.frames.get(fid)
+        if fr is None or not isinstance(fr.owner, (ast.FunctionDef, ast.AsyncFunctionDef)):
+            return None
+        cls = self._owner_class(fr.owner)
+        a = fr.owner.args
+        first = [x.arg for x in a.posonlyargs + a.args][:1]
+        if cls is None or not first or first[0] not in fr.vars:
+            return None
+        obj = fr.vars[first[0]]
+        if isinstance(obj, Num):
+            obj = self.simplify(obj)
+        if not isinstance(obj, Opq):
+            return None
+        return SuperRef(obj, cls)
+
+    def super_member(self, sr, name):
+        """function scope of `name` looked up behind sr.cls in the MRO of the class of sr.obj"""
+        if sr.obj.kind == "obj" and sr.obj.parts:
+            runtime = sr.obj.parts[0]
+        elif self.cls is not None and sr.obj.key == self.self_key:
+            runtime = self.cls
+        else:
+            runtime = sr.cls
+        try:
+            mro = list(self.repo.class_mro(runtime))
+        except Exception:
+            mro = [runtime]
+        if sr.cls not in mro:
+            try:
+                mro = list(self.repo.class_mro(sr.cls))
+            except Exception:
+                mro = [sr.cls]
+        for c in mro[mro.index(sr.cls) + 1:]:
+            hits = [ch for ch in c.children if ch.kind == "function" and ch.name == name]
+            if hits:
+                return hits[-1]
+        return None
+
     def getattr_value(self, base, attr, st):
         if isinstance(base, Num):
             base = self.simplify(base)
+        if isinstance(base, SuperRef):
+            m = self.super_member(base, attr)
+            if m is not None:
+                return Partial(FuncRef(m), (base.obj,))
+            return self.mk_attr(self.opq("sym", key(base), (base,)), attr)
+        if isinstance(base, ClassRef):
+            # Class.method: the plain function (explicit base-class calls `Base.__init__(self, ...)`)
+            m = self.member_of(base.scope, attr)
+            if m is not None and not any((dotted(d) or "") in ("staticmethod", "classmethod", "property") for d in m.node.decorator_list):
+                return FuncRef(m)
         if isinstance(base, NTType) and attr == "_fields":
             return tuple(base.fields)
         if isinstance(base, Opq) and base.kind == "obj":
@@ -1515,6 +1597,10 @@ class SymX:
     # ---- calls
     def e_Call(self, e, st, fid, dec, module):
         f = self.eval(e.func, st, fid, dec, module)
+        if isinstance(f, Ext) and f.name == "builtins.super" and not e.args and not e.keywords:
+            sr = self._super_ref(st, fid)
+            if sr is not None:
+                return sr
         args = []
         star = False
         for a in e.args:
@@ -1823,8 +1909,13 @@ class SymX:
         return c
 
     def run_inline(self, fn_node, scope, bound, parent_fid, st, dec, module):
-        fid = st.next_fid
-        st.next_fid += 1
+        if self.unique_frames:
+            # frame numbers are never reused on another path: a closure (whose text carries the number of its defining frame) denotes one binding
+            self._gfid += 1
+            fid = self._gfid
+        else:
+            fid = st.next_fid
+            st.next_fid += 1
         st.frames[fid] = Frame(dict(bound), parent_fid, fn_node)
         depth0 = getattr(st, "_depth", 0)
         st._depth = depth0 + 1
@@ -1915,7 +2006,7 @@ class SymX:
             self.eval(s.value, st, fid, dec, module)
         elif isinstance(s, (ast.FunctionDef, ast.AsyncFunctionDef)):
             sc = self.repo.scope_of(s)
-            st.frames[fid].vars[s.name] = Closure(s, fid, sc, s.name, self.eval_defaults(s.args, st, fid, dec, module))
+            st.frames[fid].vars[s.name] = Closure(s, fid, sc, s.name, self.eval_defaults(s.args, st, fid, dec, module), self._closure_tag(fid))
         elif isinstance(s, ast.Return):
             v = self.eval(s.value, st, fid, dec, module) if s.value is not None else None
             if fid == st.root:
